@@ -447,6 +447,9 @@ func main() {
 				fmt.Println("check: replay did not reproduce a failure")
 				exit(0)
 			}
+			if os.Getenv("VERIF_DEBUG") != "" {
+				fmt.Println(out)
+			}
 			fmt.Printf("%s: %s\n", f.Class, f.Msg)
 			fmt.Printf("VIOLATION property=%s replay=%s\n", prop, *replay)
 			exit(1)
